@@ -711,6 +711,8 @@ where
                         if let BadFrameResponse::Abort(report) = failure_handler.failed_with(e) {
                             break Err(report);
                         }
+                        // The frame is to be ignored: there is nothing to pass on to the consumers.
+                        continue;
                     }
                     if is_active {
                         send_current(&mut registered, &current).await;
